@@ -179,6 +179,14 @@ def g_url(spec, r):
     while True:
         u = netgen.url(r)
         x = r.random()
+        if r.random() < 0.08:
+            # the closer of the enclosing quote / parenthesis sits inside the userinfo, right after an '@': what is left after
+            # trimming at the closer has no host
+            op, cl = r.choice([(b"'", b"'"), (b"(", b")")])
+            user = netgen.label(r, 1, 6)
+            text = r.choice(netgen.SCHEMES) + b"://" + user + b"@" + cl + b"+h+" + (op if op == b"'" else b"") + b"@" + netgen.domain(r) + b"/" + netgen.label(r)
+            yield "url:ctx", netgen.offsets_prefix(r) + r.choice([b"fetch", b"x=", b""]) + op + text + cl + b" " + netgen.neutral_text(r), None
+            continue
         if x < 0.75:
             yield "url", _embed(r, u["text"]), None
         elif x < 0.9:
